@@ -25,6 +25,8 @@
 mod client;
 #[path = "../xfr.rs"]
 mod xfr;
+#[path = "../xfr_client.rs"]
+mod xfr_client;
 
 use bytes::Bytes;
 use domain::base::iana::Class;
@@ -440,7 +442,7 @@ fn main() {
             // the same messages received through a real stream::Connection
             // (multi-response request): what get_response() hands out
             let octets: Vec<Vec<u8>> = msgs.iter().map(|m| m.as_slice().to_vec()).collect();
-            let client = client_run(qtype.to_int(), &octets, &vec![true; octets.len()]);
+            let client = xfr_client::client_run(qtype.to_int(), &octets, &vec![true; octets.len()]);
             let r = std::panic::catch_unwind(std::panic::AssertUnwindSafe(|| {
                 rt.block_on(receive(&zone2, &reqmsg, msgs, MAX_N))
             }));
@@ -474,7 +476,7 @@ fn main() {
                 *bad.last_mut().unwrap() = Message::from_octets(Bytes::from(octets)).unwrap();
                 let abs_bad: Vec<Value> = bad.iter().map(abstract_msg).collect();
                 let octets: Vec<Vec<u8>> = bad.iter().map(|m| m.as_slice().to_vec()).collect();
-                let client = client_run(qtype.to_int(), &octets, &vec![true; octets.len()]);
+                let client = xfr_client::client_run(qtype.to_int(), &octets, &vec![true; octets.len()]);
                 let zone3 = build_zone(rs, &rrecs);
                 let r = std::panic::catch_unwind(std::panic::AssertUnwindSafe(|| {
                     rt.block_on(receive(&zone3, &reqmsg, bad, MAX_N))
